@@ -276,7 +276,7 @@ pub fn init_vars(rng: &mut Rng) -> String {
 pub fn run_impl_structured(req: &str, model: &str) -> String {
     let t: Vec<&str> = req.split(' ').collect();
     let m: Vec<&str> = model.split(' ').collect();
-    if m.len() != 3 || !m[0].starts_with('T') {
+    if (m.len() != 3 && m.len() != 4) || !m[0].starts_with('T') {
         return format!("no-model-output {}", model);
     }
     let text = dec_str(&m[0][1..]).unwrap();
@@ -291,16 +291,22 @@ pub fn run_impl_structured(req: &str, model: &str) -> String {
     if malformed && out == "timeout" {
         out = if m[1] == "M:fuel" { "fuel".to_string() } else { "stopped".to_string() };
     }
-    format!("{} M:{} {}", m[0], out.replace(' ', "_"), m[2])
+    format!("{} M:{} {}", m[0], out.replace(' ', "_"), m[2..].join(" "))
 }
 
 pub fn relation_structured(model: &str, imp: &str) -> Option<bool> {
     // the property's own relation: implementation outcome = tree interpreter outcome
     let i: Vec<&str> = imp.split(' ').collect();
-    if i.len() != 3 {
+    if i.len() != 3 && i.len() != 4 {
         return Some(false);
     }
     let m: Vec<&str> = model.split(' ').collect();
+    // C05: where the literal reading of the clause about calls that end without a value differs
+    // from the tree interpretation (`S2:`, lean/DuckModel/Spec/StrictEnd.lean), it is the demand
+    if let Some(s2) = m.get(3).and_then(|x| x.strip_prefix("S2:")) {
+        let got = i[1].strip_prefix("M:")?;
+        return Some(got == s2);
+    }
     let spec = m.get(2)?.strip_prefix("S:")?;
     if spec == "fuel" {
         return None;
